@@ -1,16 +1,18 @@
 #!/bin/bash
-# usage: tools/selftest.sh [ID...] — for each seeded defect: the patched tree must raise an alarm (exit 1).
-# Works on a scratch worktree of /repo (VERIF_REPO), never on /repo itself; evidence/replays of these
-# runs go to /tmp/verif-alt. The worktree is removed at the end.
+# usage: tools/selftest.sh [seed...] — for each seeded defect listed in seeded/MAP: the patched tree must
+# raise an alarm (exit 1) in the quick tier of the mapped property's check. Works on a scratch worktree of
+# /repo (VERIF_REPO), never on /repo itself; evidence/replays of these runs go to /tmp/verif-alt.
 cd /verif
 WT=/tmp/selftest-repo-$$
 git -C /repo worktree add -q --detach $WT HEAD || exit 2
 trap "git -C /repo worktree remove --force $WT" EXIT
-IDS=${@:-$(ls seeded | grep '^C')}
-for id in $IDS; do
-  [ -f harness/$id/spec.json ] || { echo "$id: no harness"; continue; }
+want=" $* "
+grep -v '^#' seeded/MAP | while read seed prop filter; do
+  [ -z "$seed" ] && continue
+  [ $# -gt 0 ] && [[ "$want" != *" $seed "* ]] && continue
+  if [ "$prop" = "-" ]; then echo "$seed: not expected to be caught (see DESIGN.md 11.5)"; continue; fi
   git -C $WT checkout -q -- . && git -C $WT clean -fdq
-  git -C $WT apply /verif/seeded/$id/patch.diff || { echo "$id: patch does not apply"; continue; }
-  VERIF_REPO=$WT ./check $id quick > /tmp/selftest-$id-seed.log 2>&1; s=$?
-  echo "$id seeded_exit=$s $( [ $s = 1 ] && echo CAUGHT || echo MISSED ) | $(grep -c '^VIOLATION' /tmp/selftest-$id-seed.log) violations | $(tail -1 /tmp/selftest-$id-seed.log | cut -c1-100)"
+  git -C $WT apply /verif/seeded/$seed/patch.diff 2>/dev/null || { echo "$seed: patch does not apply to the current tree"; continue; }
+  VERIF_REPO=$WT ./check $prop quick $filter > /tmp/selftest-$seed.log 2>&1; s=$?
+  echo "$seed -> $prop: exit=$s $( [ $s = 1 ] && echo CAUGHT || echo MISSED ) $(grep -c '^VIOLATION' /tmp/selftest-$seed.log) violations"
 done
